@@ -830,10 +830,12 @@ func (m *Machine) collectInputs() []NondetRec {
 				bs[i] = byte(vals[k])
 				k++
 			}
-			if l > n.max {
-				l = n.max
+			// the length is exact; only the first n.max bytes of content are read from the model (the rest replay as zero)
+			c := l
+			if c > n.max {
+				c = n.max
 			}
-			out = append(out, NondetRec{Tag: n.tag, Kind: n.kind, Len: l, Bytes: bs[:l]})
+			out = append(out, NondetRec{Tag: n.tag, Kind: n.kind, Len: l, Bytes: bs[:c]})
 		} else {
 			out = append(out, NondetRec{Tag: n.tag, Kind: n.kind, Value: vals[k]})
 			k++
